@@ -227,6 +227,12 @@ def replay_obligation(u, prop, o, known_ids, label="model"):
     elif o.kind in ("loop-preserve", "loop-entry"):
         out["verdict"] = "not-replayable"
         out["why"] = "obligation is about a loop-head state (after havoc)"
+    elif o.name not in cc.checked:
+        # "spurious" means: the real code was run on the model's values and satisfied the clause.  A replay
+        # that never evaluated the clause (harness error, different path taken) shows nothing of the kind.
+        out["verdict"] = "not-replayable"
+        out["why"] = "the replay did not reach the clause on the model's values" + (
+            " (%s)" % out["error"] if "error" in out else "")
     return out
 
 
